@@ -532,6 +532,17 @@ def build_cases(seed, tier):
         ins = [('A', s) for s in ['b1', 'c22', 'b', 'd1', '1,b2b3', '1,', '1,b', ',b2', 'c 3', '7 , b 8']]
         add('incld%da' % i, rules, False, ins, ['incl'], group='incld%d' % i, variant=0)
         add('incld%db' % i, inline_includes(rules), False, ins, ['incl'], group='incld%d' % i, variant=1)
+    # an included rule's own directives (@check, @string, @position, @memoize) play no role at the include site
+    for i in range(3 if tier != 'thorough' else 8):
+        ck = rng.choice(['chk_hash2', 'chk_hash3', 'chk_false'])
+        extra = rng.choice([[], ['position'], ['memoize'], ['string']])
+        ident = dict(kind='rule', dirs=[('check', ['hooks', ck])] + extra + ['no_skip_ws'], name='Ident',
+                     body=gen.choice(gen.seq(('range', gen.C('a'), gen.C('z')), ('star', gen.choice(gen.seq(('range', gen.C('a'), gen.C('z'))))))))
+        rules = [dict(kind='rule', dirs=['export'], name='A', body=gen.choice(gen.seq(F_('w', 'Word'), ('star', gen.choice(gen.seq(gen.lit(','), F_('w', 'Word')))), ('opt', gen.choice(gen.seq(gen.lit(';'), F_('i', 'Ident'))))))),
+                 dict(kind='rule', dirs=['string', 'no_skip_ws'], name='Word', body=gen.choice(gen.seq(('incl', 'Ident')))), ident]
+        ins = [('A', s) for s in ['a', 'if', 'b,c', 'let , x', 'zz;q', 'a;if', 'while,b;c', 'x,', ',x', 'ab cd']]
+        add('inclc%da' % i, rules, False, ins, ['incl', 'hooks'], group='inclc%d' % i, variant=0)
+        add('inclc%db' % i, inline_includes(rules), False, ins, ['incl', 'hooks'], group='inclc%d' % i, variant=1)
     # probes
     n, ni = size('probe')
     for i in range(n):
